@@ -500,4 +500,44 @@ theorem lookup_filter (g : Str → Bool) (k : Str) (hk : g k = true) :
         have : (k == a) = false := by simpa using hka
         simp only [this]; exact ih
 
+/-- a policy that produces a hash for this RPC: channel id, or a non "-bin" header that is present. -/
+def applies (v : Str → List Str) : HashPolicy → Bool
+  | .channelID _ => true
+  | .header n _ => !hasSuffixBin n && !(v n).isEmpty
+
+def isTerminal : HashPolicy → Bool
+  | .channelID t => t
+  | .header _ t => t
+
+theorem hashLoop_terminal_cuts (hashFn : Str → UInt64) (c : UInt64) (v : Str → List Str) (p : HashPolicy)
+    (hp : applies v p = true) (ht : isTerminal p = true) (ps2 ps2' : List HashPolicy) :
+    ∀ (ps1 : List HashPolicy) (h : UInt64) (g : Bool),
+      hashLoop hashFn c v (ps1 ++ p :: ps2) h g = hashLoop hashFn c v (ps1 ++ p :: ps2') h g
+  | [], h, g => by
+    cases p with
+    | channelID t =>
+      simp only [isTerminal] at ht; subst ht
+      simp [hashLoop]
+    | header n t =>
+      simp only [isTerminal] at ht; subst ht
+      simp only [applies, Bool.and_eq_true, Bool.not_eq_true'] at hp
+      simp [hashLoop, hp.1, hp.2]
+  | q :: ps1, h, g => by
+    have ih := hashLoop_terminal_cuts hashFn c v p hp ht ps2 ps2' ps1
+    cases q with
+    | channelID t =>
+      simp only [List.cons_append, hashLoop]
+      split
+      · rfl
+      · exact ih _ _
+    | header n t =>
+      simp only [List.cons_append, hashLoop]
+      split
+      · exact ih _ _
+      · split
+        · exact ih _ _
+        · split
+          · rfl
+          · exact ih _ _
+
 end GrpcProofs.Lemmas.Routing
